@@ -77,6 +77,20 @@ func genObjPatch(p string, maxM, nVals int) *JV {
 		if vx.ParamOr("emptynames", 0) == 1 && vx.Choose(p+"k"+itoa(k)+".empty", 2) == 1 {
 			name = []byte{}
 		}
+		if vx.ParamOr("escnames", 0) == 1 && vx.Choose(p+"k"+itoa(k)+".esc", 2) == 1 {
+			// a name spelled through the escape alphabet (short escapes, raw U+2028 ...)
+			nv, nsp := symEscName(p + "k" + itoa(k) + ".e")
+			for len(o.KSp) < len(o.Keys) {
+				o.KSp = append(o.KSp, nil)
+			}
+			o.Keys = append(o.Keys, nv)
+			o.KSp = append(o.KSp, nsp)
+			o.Kids = append(o.Kids, mergeVal(vx.Choose(p+"v"+itoa(k), nVals), p+itoa(k)+"."))
+			continue
+		}
+		if o.KSp != nil {
+			o.KSp = append(o.KSp, nil)
+		}
 		o.withB(name, mergeVal(vx.Choose(p+"v"+itoa(k), nVals), p+itoa(k)+"."))
 	}
 	vx.Assume(!o.hasDupKeys())
@@ -118,8 +132,19 @@ func genDoc(p string, maxM, nVals int, nonObjRoots bool) *JV {
 			names = []string{"", "a", "b"}
 		}
 		for j := 0; j < k; j++ {
+			if j == 0 && vx.ParamOr("escnames", 0) == 1 {
+				nv, nsp := symEscName(p + "k0.e")
+				o.Keys = append(o.Keys, nv)
+				o.KSp = append(o.KSp, nsp)
+				o.Kids = append(o.Kids, docVal(vx.Choose(p+"v"+itoa(j), nVals), p+itoa(j)+"."))
+				continue
+			}
+			if o.KSp != nil {
+				o.KSp = append(o.KSp, nil)
+			}
 			o.with(names[j], docVal(vx.Choose(p+"v"+itoa(j), nVals), p+itoa(j)+"."))
 		}
+		vx.Assume(!o.hasDupKeys())
 		return o
 	}
 	switch k - maxM {
@@ -550,4 +575,30 @@ func H_CreateReject() {
 func H_Create_Legacy() {
 	concreteNums = true
 	H_Create()
+}
+
+// H_CreateBig (C03, C15, C17): numbers that float64 cannot hold exactly must be carried into the patch verbatim,
+// also on the very first decode of a process (fresh pooled decoder state).
+func H_CreateBig() {
+	a := []byte(`{"id":1,"ratio":0.5,"keep":12345678901234567890123,"e":1E5}`)
+	b := []byte(`{"id":9007199254740993,"ratio":0.1234567890123456789,"keep":12345678901234567890123,"e":1E5,"new":1e400}`)
+	var pB []byte
+	var err error
+	panicked := vx.CatchPanic(func() { pB, err = jsonpatch.CreateMergePatch(a, b) })
+	vx.Assert(!panicked && err == nil, "C03/big-numbers-succeeds")
+	vx.Assert(!panicked, "C04/create-no-panic")
+	if panicked || err != nil {
+		return
+	}
+	vx.Note("patch", pB)
+	P, ok := parseJSON(pB)
+	vx.Assert(ok, "C15/create-output-parses")
+	if !ok {
+		return
+	}
+	want, _ := parseJSON([]byte(`{"id":9007199254740993,"ratio":0.1234567890123456789,"new":1e400}`))
+	vx.Assert(refEqual(P, want), "C03/number-literals-carried-over-unchanged")
+	vx.Assert(refEqual(P, want), "C15/create-reads-back-as-intended-value")
+	vx.Assert(refEqual(P, want), "C17/number-literals-kept")
+	vx.Reach("createbig/end")
 }
